@@ -42,6 +42,9 @@ TRUSTED = [
     'replaced by a fixed marker (ombott.ombott.format_exc patched by the harness); config.debug = False, '
     'catchall = True, no domain_map',
     'section variables: eh (custom error handlers: arbitrary function code -> handler), reason (http.client phrase table)',
+    'oracle only (run on the implementation, not compared with the model): error pages with config.debug=True (repr of the '
+    'exception and the traceback text inside the page), KeyboardInterrupt/SystemExit/MemoryError (re-raised by design: the '
+    'oracle requires that no response was started), BaseResponse members the framework never calls (respapi cases)',
     'add_hook/remove_hook calls made by hooks or the handler are modelled within one request (after list: effective if made '
     'before its emit starts; an emit iterates a copy); their effect on later requests is not modelled',
     'header names/values and cookie renderings of handler-made responses are wire-safe (C14) and UTF-8 encodable: '
@@ -145,6 +148,11 @@ class Boom(Exception):
     pass
 
 
+class BadRepr(Exception):
+    def __repr__(self):
+        raise RuntimeError('no repr')
+
+
 class RecIter:
     def __init__(self, rec, oid, items):
         self._rec, self._id, self._items = rec, oid, iter(items)
@@ -159,6 +167,8 @@ class RecIter:
             return build(it['o'], self._rec)
         if it['k'] == 'raise_http':
             raise build_resp(it['r'], it['err'], self._rec)
+        if it['k'] == 'raise_fatal':
+            raise FATAL[it['exc']]('fatal')
         raise Boom('boom')
 
     def __repr__(self):
@@ -189,6 +199,8 @@ class RecBox:
                 yield build(it['o'], self._rec)
             elif it['k'] == 'raise_http':
                 raise build_resp(it['r'], it['err'], self._rec)
+            elif it['k'] == 'raise_fatal':
+                raise FATAL[it['exc']]('fatal')
             else:
                 raise Boom('boom')
 
@@ -297,6 +309,8 @@ def run_prog(app, h, rec):
                 app.response.content_type = m['v']
             elif m.get('via') == 'prop' and m['n'] == 'Content-Length':
                 app.response.content_length = m['v']
+            elif m.get('via') == 'prop' and m['n'] == 'Expires':
+                app.response.expires = m['v']          # writer: http_date(unix timestamp)
             else:
                 app.response.headers[m['n']] = m['v']
         elif m['m'] == 'add':
@@ -359,6 +373,8 @@ def run_prog(app, h, rec):
         ombott.redirect(res['loc'], res['code'])
     if res['k'] == 'raise_fatal':
         raise FATAL[res['exc']]('fatal')
+    if res.get('badrepr'):
+        raise BadRepr()
     raise Boom('boom')
 
 
@@ -816,10 +832,17 @@ def enc_mut(m):
         return [6] + S(m['n'])
     if m['m'] == 'clear':
         return [7]
-    if m['m'] == 'delcookie':
-        return [3] + S(m['n']) + S(cookie_rendered(m['n'], '', dict(DELETE_OPTS, **(m.get('opts') or {}))))
-    if m['m'] == 'cookie':
-        return [3] + S(m['n']) + S(cookie_rendered(m['n'], m['v'], m.get('opts')))
+    if m['m'] in ('cookie', 'delcookie'):
+        # response._cookies is one SimpleCookie per request: setting a name again re-uses its Morsel, whose
+        # attributes persist (delete_cookie then set_cookie keeps Max-Age=-1) — render from the jar so far
+        jar = _ENC['jar'] if _ENC.get('jar') is not None else http.cookies.SimpleCookie()
+        if m['m'] == 'cookie':
+            mo = cookie_morsel(jar, m['n'], m['v'], m.get('opts'))
+        else:
+            mo = cookie_morsel(jar, m['n'], '', dict(DELETE_OPTS, **(m.get('opts') or {})))
+        return [3] + S(m['n']) + S(mo.OutputString())
+    if m['m'] == 'set' and m.get('via') == 'prop' and m['n'] == 'Expires':
+        return [1] + S('Expires') + S(email.utils.formatdate(m['v'], usegmt=True))
     if m['m'] == 'set':
         return [1] + S(m['n']) + S(str(m['v']))
     if m['m'] == 'add':
@@ -854,7 +877,9 @@ class SimResp:
 
     def apply(self, m):
         k = m['m']
-        if k == 'set':
+        if k == 'set' and m.get('via') == 'prop' and m['n'] == 'Expires':
+            self.h['Expires'] = email.utils.formatdate(m['v'], usegmt=True)
+        elif k == 'set':
             self.h[m['n']] = str(m['v'])
         elif k == 'add':
             old = self.h.get(m['n'])
@@ -880,7 +905,41 @@ class SimResp:
             cookie_morsel(self.jar, m['n'], '', dict(DELETE_OPTS, **(m.get('opts') or {})))
 
 
-_ENC = {'case': None, 'prior': []}
+_ENC = {'case': None, 'prior': [], 'jar': None}
+
+
+def enc_in_execution_order(before, after, rhooks, handler):
+    """encode the programs of one request in the order they run, threading the cookie jar through those
+    that do run (a program after a failing hook does not) -> (before, after, rhooks, handler) encodings"""
+    live = http.cookies.SimpleCookie()
+    running = True
+
+    def enc(h, runs):
+        _ENC['jar'] = live if runs else http.cookies.SimpleCookie()
+        try:
+            return enc_hprog(h)
+        finally:
+            _ENC['jar'] = None
+    eb = []
+    for h in before:
+        eb.append(enc(h, running))
+        running = running and not fails(h)
+    er = []
+    reach = running
+    for h in rhooks:
+        er.append(enc(h, reach))
+        reach = reach and not fails(h)
+    eh_ = enc(handler, reach) if handler is not None else None
+    ea_by_index = {}
+    arun = True
+    for j in range(len(after) - 1, -1, -1):          # after hooks run in reverse registration order
+        ea_by_index[j] = enc(after[j], arun)
+        arun = arun and not fails(after[j])
+    ea = [ea_by_index[j] for j in range(len(after))]
+
+    def lst(es):
+        return [len(es)] + [x for e in es for x in e]
+    return lst(eb), lst(ea), lst(er), eh_
 
 
 def request_url(case):
@@ -958,18 +1017,20 @@ def encode(case):
     _ENC['case'] = case
     _ENC['prior'] = [m for h in case['before'] for m in h['muts']] + \
         ([m for h in rt['rhooks'] for m in h['muts']] if rt['k'] == 'ok' else [])
+    handler = rt['h'] if rt['k'] == 'ok' else rt.get('partial') if rt['k'] == '404' else None
+    eb, ea, er, ehd = enc_in_execution_order(case['before'], case['after'], rt['rhooks'] if rt['k'] == 'ok' else [], handler)
     if rt['k'] == '404':
-        r = [0] + ([0] if rt.get('partial') is None else [1] + enc_hprog(rt['partial']))
+        r = [0] + ([0] if ehd is None else [1] + ehd)
     elif rt['k'] == '405':
         r = [1] + S(','.join(sorted(other_verbs(case['method']))))
     else:
-        r = [2] + enc_list(rt['rhooks'], enc_hprog) + enc_hprog(rt['h'])
+        r = [2] + er + ehd
     # the last registration for a code wins (dict assignment)
     eh = list({code: (code, spec) for code, spec in case['eh']}.values())
     tag = 0 if (case.get('cfg') or {}).get('catchall', True) else 3
     return ([tag, int(case['method'] == 'HEAD'), int(case['fw']), int(is_json(case))]
             + S(url_repr(case)) + S(request_path(case))
-            + enc_list(eh, enc_eh) + enc_list(case['before'], enc_hprog) + enc_list(case['after'], enc_hprog) + r)
+            + enc_list(eh, enc_eh) + eb + ea + r)
 
 
 def T(cps):
@@ -1046,6 +1107,8 @@ def mentions_content_length(case):
                 if n.lower() == 'content-length':
                     found.append(1)
         if d.get('m') in ('set', 'add') and d.get('n', '').lower() == 'content-length':
+            found.append(1)
+        if d.get('m') == 'update' and any(n.lower() == 'content-length' for n, _ in d['items']):
             found.append(1)
     walk(case, f)
     return bool(found)
@@ -1125,9 +1188,34 @@ def oracle(case, obs):
             if f:
                 return 'request %d of the same application: %s' % (k + 1, f)
         return None
+    if case['kind'] == 'respapi':
+        r = obs.get('respapi')
+        if r is None:
+            return 'harness failure: %s' % obs
+        code, line = status_of(case['status'])
+        want = dict(first=[1], status=[line, line, code], closes=1, repr='X-A: v\nContent-Type: text/html; charset=UTF-8',
+                    hd=[2, ['X-A', 'X-B'], 'u', True, '<HeaderDict: {}>'],
+                    copy=['HTTPError', '201 Created', [['X-B', 'u'], ['Content-Type', 'text/html; charset=UTF-8'],
+                                                       ['Set-Cookie', 'sid=v1']], None],
+                    copy_multi='TypeError', copy_cls='AssertionError')
+        got = json.loads(json.dumps(r))
+        for k in want:
+            if got.get(k) != want[k] and k != 'copy_multi':
+                return 'BaseResponse.%s: got %r, expected %r' % (k, got.get(k), want[k])
+        return None
     if 'events' not in obs:
         return 'harness failure: %s' % obs
     if obs['escaped']:
+        n_start = sum(1 for e in obs['events'] if e[0] == 'start')
+        if obs['escaped'] in FATAL:
+            # KeyboardInterrupt / SystemExit / MemoryError are passed on by design; the response must not have started
+            found = []
+            walk(case, lambda d: found.append(d['exc']) if d.get('k') == 'raise_fatal' else None)
+            if obs['escaped'] in found:
+                return 'start_response was called before %s was passed on' % obs['escaped'] if n_start else None
+        if not (case.get('cfg') or {}).get('catchall', True):
+            # configured: exceptions go to the server, which must not see a started response
+            return 'catchall=False: start_response was called and then %s escaped' % obs['escaped'] if n_start else None
         return 'exception %s escaped Ombott.__call__' % obs['escaped']
     ev = obs['events']
     starts = [e for e in ev if e[0] == 'start']
@@ -1218,9 +1306,8 @@ def oracle(case, obs):
         return 'handler called %d times' % len(idx['handler'])
     # a crash becomes a 500 (when the application did not install its own 500 handler)
     rt = case['routing']
-    crash = (first_fail is not None and case['before'][first_fail]['res']['k'] == 'raise_exc') or \
-        (first_fail is None and rt['k'] == 'ok' and not any(fails(h) for h in rt['rhooks'])
-         and rt['h']['res']['k'] == 'raise_exc')
+    crash = (first_fail is not None and crashes(case['before'][first_fail])) or \
+        (first_fail is None and rt['k'] == 'ok' and not any(fails(h) for h in rt['rhooks']) and crashes(rt['h']))
     if crash and first_fail_a is None and not any(c == 500 for c, _ in case['eh']) and code != 500:
         return 'handler crash answered with %d' % code
     return None
@@ -1248,6 +1335,7 @@ class Ctx:
         self.rng = rng
         self.next_id = 0
         self.edits = edits          # may programs call add_hook / remove_hook?
+        self.redirects = edits      # may the handler call redirect()? (single-request cases only)
         self.next_hook = 10
 
     def oid(self):
@@ -1289,7 +1377,7 @@ def g_resp(c, depth, err):
     else:
         body = g_out(c, depth - 1)
         status = g_status(rng)
-    return dict(status=status,
+    return dict(status=status, ctor=rng.choice(['append', 'append', 'list', 'dict', 'kw']),
                 headers=[g_header(rng) for _ in range(rng.choice([0, 0, 1, 2]))],
                 cookies=[[rng.choice(['sid', 'k']), rng.choice(COOKIE_VALUES)] for _ in range(rng.choice([0, 0, 0, 1, 2]))],
                 body=body)
@@ -1357,10 +1445,43 @@ def g_hook_edit(c):
     return dict(m='addhook', after=after, j=c.next_hook)
 
 
+COOKIE_OPTS = [dict(path='/x'), dict(max_age=60), dict(max_age_td=[1, 30]), dict(expires=0), dict(expires=86400 * 365),
+               dict(secure=True, httponly=True), dict(domain='example.com', path='/'), dict(samesite='Lax')]
+BAD_MUTS = [dict(m='bad', what='ctl', v='a\nb'), dict(m='bad', what='ctl', v='a\rb'), dict(m='bad', what='ctl', v='\x00'),
+            dict(m='bad', what='type'), dict(m='bad', what='status', v=99), dict(m='bad', what='status', v=1000),
+            dict(m='bad', what='status', v='200'), dict(m='bad', what='cookie-type'), dict(m='bad', what='cookie-long')]
+
+
+def g_extra_mut(rng, c):
+    """the less common ways of changing the response object"""
+    r = rng.random()
+    if r < 0.12:
+        return dict(m='del', n=rng.choice(HNAMES), via=rng.choice(['pop', 'del']))
+    if r < 0.18:
+        return dict(m='clear', ns=None)
+    if r < 0.26:
+        return dict(m='clear', ns=rng.sample(HNAMES, rng.choice([1, 2])))
+    if r < 0.36:
+        return dict(m='update', items=[g_header(rng) for _ in range(rng.choice([1, 2]))])
+    if r < 0.48:
+        n, v = rng.choice([('Content-Type', rng.choice(CTYPES)), ('Content-Length', rng.choice([0, 3, 7])),
+                           ('Expires', rng.choice([0, 86400, 1700000000]))])
+        return dict(m='set', n=n, v=v, via='prop')
+    if r < 0.72:
+        c.next_hook += 1
+        return dict(m='cookie', n='o%d' % c.next_hook, v=rng.choice(COOKIE_VALUES), opts=rng.choice(COOKIE_OPTS))
+    if r < 0.86:
+        return dict(m='delcookie', n=rng.choice(['sid', 'k', 'gone'] if c.edits else ['gone', 'old']),
+                    opts=rng.choice([None, dict(path='/x')]))
+    return dict(rng.choice(BAD_MUTS))
+
+
 def g_muts(rng, c=None):
     out = []
     if c is not None and c.edits and rng.random() < 0.12:
         out.append(g_hook_edit(c))
+    if c is not None and rng.random() < 0.12:
+        out.append(g_extra_mut(rng, c))
     for _ in range(rng.choice([0, 0, 0, 1, 2])):
         r = rng.random()
         if r < 0.3:
@@ -1376,6 +1497,9 @@ def g_muts(rng, c=None):
     return out
 
 
+LOCATIONS = ['/next', 'other', 'http://example.com/x?y=1', '../up', '?q=1', '//host/p', 'é']
+
+
 def g_hprog(c, depth, p_fail=0.3):
     rng = c.rng
     r = rng.random()
@@ -1384,6 +1508,13 @@ def g_hprog(c, depth, p_fail=0.3):
     elif r < p_fail:
         e = rng.random() < 0.6
         res = dict(k='raise_http', err=e, r=g_resp(c, depth, e))
+        if e and rng.random() < 0.3:
+            # ombott.abort(code, text)
+            res = dict(k='raise_http', err=True, via='abort',
+                       r=dict(status=rng.choice([400, 403, 404, 418, 500, 503, 999]), headers=[], cookies=[],
+                              body=dict(k='str', s=rng.choice(['no', 'Unknown Error', '']))))
+    elif r < p_fail + 0.05 and c.redirects:
+        res = dict(k='redirect', loc=rng.choice(LOCATIONS), code=rng.choice([None, None, 301, 307]))
     else:
         res = dict(k='ret', o=g_out(c, depth))
     return dict(muts=g_muts(rng, c), res=res)
@@ -1423,11 +1554,41 @@ def g_case(rng, edits=True):
             code = rng.choice([404, 405, 500, 500, 400, 503, 418, 999])
             k = rng.choice(['const', 'const', 'body', 'same', 'raise'])
             eh.append([code, dict(k='const', o=g_out(c, 1)) if k == 'const' else dict(k=k)])
-    return dict(kind='req', method=method, fw=rng.random() < 0.4, json=rng.random() < 0.25,
+    extra = {}
+    if not edits:
+        pass
+    elif rng.random() < 0.15:
+        extra['cfg'] = dict(via=rng.choice(['ctor', 'setup']), catchall=rng.random() < 0.5,
+                            debug=rng.random() < 0.3)
+    if edits and rng.random() < 0.3:
+        extra['hookreg'] = rng.choice(['on', 'deco', 'mixed'])
+    if edits and rng.random() < 0.2:
+        extra['accept'] = rng.choice(ACCEPTS)[0]
+    if edits and rng.random() < 0.15:
+        extra['proto'] = 'HTTP/1.0'
+    if edits and rng.random() < 0.03:
+        # KeyboardInterrupt / SystemExit / MemoryError somewhere (oracle only)
+        where = rng.choice(['handler', 'before', 'after'])
+        fatal = dict(muts=[], res=dict(k='raise_fatal', exc=rng.choice(sorted(FATAL))))
+        extra['_fatal'] = [where, fatal]
+    case = dict(kind='req', method=method, fw=rng.random() < 0.4, json=rng.random() < 0.25,
                 path='special' if rng.random() < 0.2 else 'plain',
                 before=[g_hook(c) for _ in range(rng.choice([0, 0, 1, 2, 3]))],
                 after=[g_hook(c) for _ in range(rng.choice([0, 0, 1, 2, 3]))],
                 routing=routing, eh=eh)
+    fatal = extra.pop('_fatal', None)
+    case.update(extra)
+    if fatal is not None:
+        where, prog = fatal
+        if where == 'before':
+            case['before'] = case['before'] + [prog]
+        elif where == 'after':
+            case['after'] = [prog] + case['after']
+        elif case['routing']['k'] == 'ok':
+            case['routing']['h'] = prog
+        else:
+            case['before'] = [prog]
+    return case
 
 
 STATUS_ARGS = [200, 100, 999, 99, 1000, 0, -5, 404, 418, 299, '200 OK', '404 Brain not found', ' 201 Created ',
@@ -1493,7 +1654,7 @@ def _resp(status, body, err=False, headers=(), cookies=()):
 
 def _iter(oid, items, close=True, lst=False, box=None):
     return dict(k='iter', id=oid, close=close, items=[dict(k='yield', o=i) if 'k' in i and i['k'] not in
-                                                     ('raise_exc', 'raise_http', 'yield') else i for i in items],
+                                                     ('raise_exc', 'raise_http', 'raise_fatal', 'yield') else i for i in items],
                 list=lst, box=box)
 
 
@@ -1590,6 +1751,76 @@ def corpus():
         cs.append(ret(hello, routing=dict(k='ok', rhooks=[],
                                           h=dict(muts=[dict(m='cookie', n='sid', v=v)], res=dict(k='ret', o=hello)))))
         cs.append(ret(_resp(200, hello, cookies=[('k', v)])))
+    # ---- audit round: configuration paths, module-level helpers, the rest of the response API ----
+    def prog(res, *muts):
+        return dict(k='ok', rhooks=[], h=dict(muts=list(muts), res=res))
+    crash = prog(dict(k='raise_exc'))
+    bad_hdr = ret(_resp(200, hello, headers=[('X-A', '\ud800')]))
+    for via in ('ctor', 'setup'):
+        for catchall in (True, False):
+            for base in (ret(_str('\ud800')), bad_hdr, ret(hello), ret(hello, routing=crash),
+                         ret(_iter(1, [_str('\ud800')])), ret(_resp(418, dict(k='bytes', b=[1]), err=True), json=True)):
+                cs.append(dict(base, cfg=dict(via=via, catchall=catchall, debug=False)))
+        for base in (ret(hello, routing=crash), ret(hello, routing=crash, json=True), ret(_str('\ud800')),
+                     ret(hello, routing=dict(k='404', partial=None)), ret(_iter(1, [dict(k='raise_exc')]))):
+            cs.append(dict(base, cfg=dict(via=via, catchall=True, debug=True)))
+    for exc in sorted(FATAL):
+        f = dict(k='raise_fatal', exc=exc)
+        cs.append(ret(hello, routing=prog(f), before=[OK_HOOK], after=[OK_HOOK]))
+        cs.append(ret(hello, before=[dict(muts=[], res=f)], after=[OK_HOOK]))
+        cs.append(ret(hello, after=[OK_HOOK, dict(muts=[], res=f)]))
+        cs.append(ret(_iter(1, [dict(k='raise_exc')]), eh=[[500, dict(k='raise')]], routing=prog(f)))
+    for proto in ('HTTP/1.1', 'HTTP/1.0'):
+        for loc in LOCATIONS[:4]:
+            cs.append(ret(hello, proto=proto, routing=prog(dict(k='redirect', loc=loc, code=None))))
+    cs.append(ret(hello, routing=prog(dict(k='redirect', loc='/n', code=301), dict(m='set', n='X-A', v='v'),
+                                      dict(m='cookie', n='sid', v='v1'), dict(m='set', n='Location', v='/old'))))
+    cs.append(ret(hello, routing=prog(dict(k='redirect', loc='/n', code=None), dict(m='add', n='X-A', v='v'),
+                                      dict(m='add', n='X-A', v='w'))))                      # copy() refuses a list value
+    cs.append(ret(hello, routing=prog(dict(k='redirect', loc='/n', code=None),
+                                      dict(m='cookie', n='o1', v='5 \u20ac', opts=dict(path='/x')))))
+    cs.append(ret(hello, method='HEAD', routing=prog(dict(k='redirect', loc='/n', code=307))))
+    for st in (400, 404, 500, 999):
+        cs.append(ret(hello, routing=prog(dict(k='raise_http', err=True, via='abort',
+                                               r=dict(status=st, headers=[], cookies=[], body=_str('Unknown Error'))))))
+    for b in BAD_MUTS:
+        cs.append(ret(hello, routing=prog(dict(k='ret', o=hello), dict(m='set', n='X-A', v='v'), b,
+                                          dict(m='set', n='X-B', v='never'))))
+        cs.append(ret(hello, before=[dict(muts=[b], res=dict(k='ret', o=dict(k='falsy', v='none')))], after=[OK_HOOK]))
+    seq = [dict(m='set', n='X-A', v='v'), dict(m='add', n='X-B', v='1'), dict(m='add', n='X-B', v='2'),
+           dict(m='set', n='Content-Type', v='text/plain; charset=latin1', via='prop'),
+           dict(m='set', n='Content-Length', v=7, via='prop')]
+    for extra in ([dict(m='del', n='X-B', via='del')], [dict(m='del', n='nope', via='del')], [dict(m='del', n='X-A', via='pop')],
+                  [dict(m='clear', ns=None)], [dict(m='clear', ns=['X-A', 'nope'])],
+                  [dict(m='update', items=[['X-B', 'new'], ['X-C', 'c']])],
+                  [dict(m='clear', ns=None), dict(m='set', n='X-A', v='again')]):
+        cs.append(ret(hello, routing=prog(dict(k='ret', o=_str('h\xe9llo')), *(seq + extra))))
+    for o in COOKIE_OPTS:
+        cs.append(ret(hello, routing=prog(dict(k='ret', o=hello), dict(m='cookie', n='o1', v='v1', opts=o))))
+        cs.append(ret(_resp(200, hello, cookies=[('k', 'x', o)])))
+    cs.append(ret(hello, routing=prog(dict(k='ret', o=hello), dict(m='cookie', n='sid', v='v1'),
+                                      dict(m='delcookie', n='sid'), dict(m='delcookie', n='gone', opts=dict(path='/x')))))
+    for acc, _ in ACCEPTS:
+        cs.append(ret(hello, routing=dict(k='404', partial=None), accept=acc))
+    for reg in ('on', 'deco', 'mixed'):
+        cs.append(ret(hello, hookreg=reg, before=[OK_HOOK, OK_HOOK, OK_HOOK], after=[OK_HOOK, OK_HOOK, OK_HOOK]))
+    for ctor in ('list', 'dict', 'kw'):
+        for e in (False, True):
+            o = _resp(201, hello, err=e, headers=[('X-A', 'v'), ('X-B', 'w')])
+            o['r']['ctor'] = ctor
+            cs.append(ret(o))
+            o2 = _resp(201, hello, err=e, headers=[('X-A', 'v'), ('X-A', 'w')])
+            o2['r']['ctor'] = ctor
+            cs.append(ret(o2))
+    cs.append(ret(hello, routing=prog(dict(k='ret', o=hello), dict(m='add', n='X-A', v='1'), dict(m='add', n='X-A', v='2'),
+                                      dict(m='add', n='X-A', v='3'), dict(m='set', n='Expires', v=86400, via='prop'))))
+    for exc in sorted(FATAL):
+        cs.append(ret(_iter(1, [_str(''), dict(k='raise_fatal', exc=exc)])))           # first next() of the body
+    for js in (False, True):
+        cs.append(dict(ret(hello, json=js, routing=prog(dict(k='raise_exc', badrepr=True))),
+                       cfg=dict(via='ctor', catchall=True, debug=True)))
+    for st in (200, 404, 999, '299 Custom'):
+        cs.append(dict(kind='respapi', status=st))
     for a in STATUS_ARGS:
         cs.append(dict(kind='status', arg=a))
     return cs
@@ -1669,6 +1900,8 @@ def _kinds(case):
 def nontrivial(case, obs):
     if case['kind'] == 'pair':
         return True
+    if case['kind'] == 'respapi':
+        return False
     if case['kind'] != 'req':
         return False
     ks = _kinds(case)
@@ -1686,6 +1919,10 @@ def classify(case, obs):
         return 'status-setter/%s' % obs.get('status')
     if case['kind'] == 'pair':
         return 'pair/shared-response-object'
+    if case['kind'] == 'respapi':
+        return 'response-api'
+    if model_skipped(case):
+        return 'oracle-only/%s' % model_skipped(case)
     rt = case['routing']
     top = rt['k']
     if top == 'ok':
@@ -1756,6 +1993,69 @@ def pred_status_line_shape(case, what, m):
 
 
 PREDICATES = {'status_line_shape': pred_status_line_shape}
+
+# Round-4 audit: every public name of the anchored code that can influence what C03 observes.
+# "oracle only" = exercised on the implementation and judged by the oracle, not compared with the model.
+API_SURFACE = [
+    # ---- ombott.py: Ombott
+    ('Ombott(config) / DefaultConfig keys catchall, debug', 'covered by req cases with cfg (via=ctor); catchall=False is '
+     'modelled (Wsgi.wsgi_nocatch, theorem C03_catchall_off); debug=True oracle only (page text with repr/traceback not modelled)'),
+    ('Ombott.setup(config)', 'covered by cfg via=setup (same expectations as via=ctor)'),
+    ('config.domain_map / app_name_header', 'covered by C03a (dm cases; model App.with_app_name)'),
+    ('config.errors_map / max_body_size / max_memfile_size / allow_x_script_name', 'excluded here: request-body side, '
+     'covered by C09 (errors_map, max_body_size) and C04/C05/C13'),
+    ('Ombott.add_hook / on(name, f) / on(name) decorator', 'covered by hookreg = add_hook | on | deco | mixed'),
+    ('Ombott.remove_hook / add_hook while serving', 'covered by rmhook / addhook mutations (model: MHook, after_call_list)'),
+    ('Ombott.emit', 'covered by every case with hooks; snapshot semantics by the hook-edit cases'),
+    ('Ombott.error(code)', 'covered by eh specs const/body/same/raise'),
+    ('Ombott.error(404, rule)', 'covered by routing 404 with partial (and C03a add_hook via=error)'),
+    ('Ombott.default_error_handler', 'covered: HTML and JSON pages, json.dumps TypeError -> catch-all; Accept spellings by accept=...'),
+    ('Ombott.route / add_route / to_route / on_route / remove_route*', 'routing is an input here; covered by C03a (composition with '
+     'the router) and C01/C02/C11'),
+    ('Ombott.handler', 'covered: 404, 404+PARTIAL, 405 (Allow), SIMPLE route hooks, handler call'),
+    ('Ombott._handle', 'covered except the undecodable-path branch (outside C03: "decodable path"; covered by C09) and the '
+     're-raise of KeyboardInterrupt/SystemExit/MemoryError (fatal cases, oracle only)'),
+    ('Ombott._cast', 'covered: every branch incl. the 1000-pass guard, file wrappers, peeked iterables, box iterables; the '
+     're-raise of KeyboardInterrupt/... at the first next() by fatal item cases (oracle only)'),
+    ('Ombott.wsgi / __call__', 'covered: suppression, close, catch-all (+HEAD), catchall=False, debug page (oracle only), fatal re-raise'),
+    ('Ombott.run / run() / server_adapters', 'excluded: starts a server, not on the request path'),
+    ('abort(code, text)', 'covered by raise_http via=abort'),
+    ('redirect(location, code)', 'covered by res kind redirect (303/302 by SERVER_PROTOCOL, explicit code, headers/cookies '
+     'copied by BaseResponse.copy, TypeError for a multi-valued header); needs Globals = this app (harness patches Globals)'),
+    ('Globals / default_app()', 'excluded: cross-application state is C10; redirect is run with Globals bound to the app under test'),
+    ('_closeiter', 'covered through _cast (single close callback); the list/tuple form of close is never built by the framework'),
+    # ---- response.py
+    ('BaseResponse.__init__(body, status, headers=list|dict, **more_headers)', 'covered by resp ctor = append|list|dict|kw'),
+    ('BaseResponse.status setter (int, "NNN reason", errors)', 'covered by status cases, status mutations, bad status mutations'),
+    ('BaseResponse.status / status_line / status_code getters', 'covered by respapi (oracle only; not used by the framework)'),
+    ('BaseResponse.headerlist', 'covered: bad_headers (204/304, title-cased names), default Content-Type, multi values, cookies, '
+     'utf8->latin1 transcoding, encode errors -> catch-all'),
+    ('BaseResponse.charset', 'covered by Content-Type values with charset= (latin1, ascii, unknown, empty, repeated, list value)'),
+    ('BaseResponse.content_type / content_length / expires setters', 'covered by set mutations via=prop; expires/… readers are '
+     'handler-side reads (excluded)'),
+    ('BaseResponse.set_cookie(name, value, **options)', 'covered: plain values incl. > U+00FF, options path/domain/max_age '
+     '(int, timedelta)/expires/secure/httponly/samesite, non-str and over-long values (raise); secret= (signed) excluded: C15'),
+    ('BaseResponse.delete_cookie', 'covered by delcookie mutations (incl. delete then set of the same name: Morsel reuse)'),
+    ('BaseResponse.copy(cls)', 'covered through redirect, and respapi (cls=HTTPError, multi-valued header, wrong cls)'),
+    ('BaseResponse.close / __iter__ / __repr__', 'covered by respapi (oracle only): the framework never calls them'),
+    ('HTTPResponse.apply', 'covered by every returned/raised/yielded response; shared instances by pair cases'),
+    ('HTTPError(status, body, exception, traceback, **options)', 'covered; exception/traceback are shown only in JSON pages and '
+     'debug pages (harness fixes format_exc)'),
+    ('HTTP_CODES / _HTTP_STATUS_LINES', 'covered: listed and unlisted codes (199, 299, 520, 999), the six added codes (418 ...)'),
+    # ---- common_helpers.py
+    ('HeaderDict.__setitem__/append/setdefault/update/pop/__delitem__/__contains__/clear(*names)/copy', 'covered by mutations '
+     'set/add/update/del(pop|del)/clear/clear names and by redirect (copy); get/keys/values/items/__len__/__iter__/__repr__ are '
+     'reads (respapi)'),
+    ('_hval', 'covered incl. both raises (control characters, wrong type)'),
+    ('WSGIFileWrapper', 'covered: file-likes with/without close and __iter__, with/without wsgi.file_wrapper'),
+    ('html_escape / tob', 'covered by the catch-all page (special path); tob(bytes) branch unreachable from wsgi()'),
+    # ---- environ
+    ('REQUEST_METHOD (7 verbs; spelling)', 'covered; lower-case spellings in C03a'),
+    ('HTTP_ACCEPT', 'covered by accept= spellings'),
+    ('SERVER_PROTOCOL', 'covered by proto (redirect)'),
+    ('wsgi.file_wrapper', 'covered by fw'),
+    ('missing mandatory keys (wsgi.errors, REQUEST_METHOD, PATH_INFO)', 'excluded: PEP 3333 makes them mandatory'),
+]
 
 MANIFEST = dict(
     text=('Proof: 14 theorems in coq/props/C03.v (Coq, all closed under the global context) about the hand-written model '
